@@ -2,29 +2,30 @@ import AvroModel.Theorems.C09global
 import AvroModel.Theorems.C10
 import AvroModel.Theorems.C19
 import AvroModel.Theorems.C04
+import AvroModel.Theorems.C04fuel
+import AvroModel.Theorems.GraphFuel
 /-
 Non-vacuity audit, area E (C09 render side, C10, C19): concrete, non-trivial instances of the
-headline theorems, the link between the theorems' fuel bounds and the driver's `graphFuel`, and
-proved witnesses of the gaps found.  The parser side of C09 (`C09_reparsed_*`) is in
-`NonVacuityE2.lean` (`Lemmas/SchemaParse` and `Lemmas/SchemaRender` cannot be imported together).
+headline theorems, at the driver's `graphFuel` — the REAL `Avro.Impl.graphFuel`
+(`Lemmas/DriverFuel.lean`) that `Driver/Main.lean` uses, not a copy — and proved witnesses of the
+gaps found.  The link between the theorems' fuel bounds and `graphFuel` (`bounds_le_graphFuel`,
+`reparsed_at_graphFuel`, found by this audit) now lives in `Theorems/GraphFuel.lean` together with
+the registered corollaries `*_at_graphFuel`, which are instantiated here.  The parser side of C09
+(`C09_reparsed_*`) is in `NonVacuityE2.lean`.
 -/
 namespace Avro.NonVacuityE
 open Avro Avro.Impl Avro.Theorems Avro.Spec.Pcf
 open Avro.Impl.Freeze Avro.Impl.Lifetimes Avro.Lemmas.Lifetimes
 
-/-- copy of `Driver.graphFuel` (`Driver/Main.lean`, line 29) -/
-def graphFuel (S : SchemaMut) : Nat := (S.size + 2) * (S.size + 2) * (maxWidth S + 2) + 64
+/-- `graphFuel` below is the driver's (`Avro.Impl.graphFuel`) -/
+example (S : SchemaMut) : graphFuel S = (S.size + 2) * (S.size + 2) * (maxWidth S + 2) + 64 := rfl
 
-/-! ## C19: the theorems' bounds against the driver's fuel -/
+/-! ## C19: the theorems' bounds against the driver's fuel
 
-theorem bounds_le_graphFuel (S : SchemaMut) :
-    max (pcfBound S) (renderBound S) ≤ graphFuel S := by
-  unfold pcfBound renderBound graphFuel
-  rw [Nat.max_self]
-  have h1 : S.size * (S.size + 1) ≤ (S.size + 2) * (S.size + 2) :=
-    Nat.mul_le_mul (by omega) (by omega)
-  have h2 := Nat.mul_le_mul h1 (show maxWidth S + 1 ≤ maxWidth S + 2 by omega)
-  omega
+`Theorems.bounds_le_graphFuel`, `pcfBound_le_graphFuel`, `renderBound_le_graphFuel`
+(`Theorems/GraphFuel.lean`). -/
+
+example (S : SchemaMut) : max (pcfBound S) (renderBound S) ≤ graphFuel S := bounds_le_graphFuel S
 
 /-! ## C09 global: a graph with namespaces, an empty namespace under a namespaced parent, recursion, shared named and unnamed nodes, logical types; fuel = the driver's -/
 
@@ -75,6 +76,18 @@ example :
       ∀ fuel', graphFuel gE ≤ fuel' → canonicalForm gE fuel' = .ok text :=
   C09_render_has_graph_pcf gE (graphFuel gE) jE gE_wf gE_render
 
+/-- `C09_render_has_graph_pcf_at_graphFuel` / `_dec_at_graphFuel`: renderer and canonical-form
+    writer both at the driver's fuel -/
+example :
+    noForwardRefs jE = true ∧
+    ∃ text, parsingCanonicalForm jE = some text ∧ canonicalForm gE (graphFuel gE) = .ok text :=
+  C09_render_has_graph_pcf_at_graphFuel gE jE gE_wf gE_render
+
+example :
+    noForwardRefs jE = true ∧
+    ∃ text, parsingCanonicalForm jE = some text ∧ canonicalForm gE (graphFuel gE) = .ok text :=
+  C09_render_has_graph_pcf_dec_at_graphFuel gE jE (by decide +kernel) gE_render
+
 /-- the text is the expected one (recursive reference `ns.Node`, `Top` without namespace, logical
     types dropped) -/
 example : parsingCanonicalForm jE = some
@@ -85,19 +98,14 @@ example : renderedNoForwardRefs gE (graphFuel gE) = true ∧
     renderedPcf gE (graphFuel gE) = graphPcf gE (graphFuel gE) :=
   C09_global_eval gE (graphFuel gE) (by decide +kernel) (by decide +kernel)
 
-/-- Bridge for `C09_reparsed_has_same_pcf` (`Theorems/C09globalC08.lean`): its conclusion speaks of
-    every fuel `≥ n + 2` (`n` the parser's node-count parameter); the driver evaluates the
-    canonical form of the re-parsed graph with `graphFuel`, which may be smaller
-    (`NonVacuityE2.lean`, `gEnum`).  With `C19_pcf_stable` the conclusion transfers. -/
-theorem reparsed_at_graphFuel (S' : SchemaMut) (n : Nat) (text : String)
+/-! The bridge for `C09_reparsed_has_same_pcf` (its conclusion speaks of every fuel `≥ n + 2`, `n`
+the parser's node-count parameter, a range that may miss `graphFuel`: `NonVacuityE2.lean`,
+`gEnum`) is `Theorems.reparsed_at_graphFuel` / `canonicalForm_at_graphFuel_of_large`
+(`Theorems/GraphFuel.lean`), from `C19_pcf_stable`. -/
+
+example (S' : SchemaMut) (n : Nat) (text : String)
     (h : ∀ fuel'', n + 2 ≤ fuel'' → canonicalForm S' fuel'' = .ok text) :
-    canonicalForm S' (graphFuel S') = .ok text := by
-  have hb : pcfBound S' ≤ graphFuel S' :=
-    Nat.le_trans (Nat.le_max_left _ _) (bounds_le_graphFuel S')
-  have h1 := h (max (n + 2) (graphFuel S')) (Nat.le_max_left _ _)
-  rw [C19_pcf_stable S' _ (Nat.le_trans hb (Nat.le_max_right _ _))] at h1
-  rw [C19_pcf_stable S' _ hb]
-  exact h1
+    canonicalForm S' (graphFuel S') = .ok text := reparsed_at_graphFuel S' n text h
 
 /-! ## C09 / C19: unnamed cycles - covered case and a case the hypothesis `C 0` excludes -/
 
@@ -116,8 +124,7 @@ example (fuel : Nat) (j : Json) : renderJson gCyc fuel ≠ .ok j :=
   C09_unnamed_cycle_never_ok gCyc _ gCyc_closed (Or.inl rfl) fuel j
 
 example : renderJson gCyc (graphFuel gCyc) = .error .custom :=
-  C09_unnamed_cycle_err_general gCyc _ gCyc_closed (Or.inl rfl) _
-    (Nat.le_trans (Nat.le_max_right _ _) (bounds_le_graphFuel gCyc))
+  C09_unnamed_cycle_err_general gCyc _ gCyc_closed (Or.inl rfl) _ (renderBound_le_graphFuel gCyc)
 
 example (fuel : Nat) (t : String) : canonicalForm gCyc fuel ≠ .ok t :=
   C19_pcf_unnamed_cycle_never_ok gCyc _ gCyc_closed (Or.inl rfl) fuel t
@@ -146,10 +153,8 @@ theorem driver_fuel_total (S : SchemaMut) (kept : Bool) :
     renderJson S (graphFuel S) ≠ .error .panic ∧
     freeze S kept (graphFuel S) ≠ .error .panic ∧
     checkForCycles S ≠ .error .panic :=
-  ⟨C19_pcf_total S _ (Nat.le_trans (Nat.le_max_left _ _) (bounds_le_graphFuel S)),
-   C19_render_total S _ (Nat.le_trans (Nat.le_max_right _ _) (bounds_le_graphFuel S)),
-   C19_freeze_total S kept _ (bounds_le_graphFuel S),
-   C19_cyclecheck_total S⟩
+  ⟨C19_pcf_total_at_graphFuel S, C19_render_total_at_graphFuel S,
+   C19_freeze_total_at_graphFuel S kept, C19_cyclecheck_total S⟩
 
 /-- shared union (node 1, referenced by `a` and `b`), shared enum, an unnamed cycle map 2 → array 5 → map 2
     reached through the record, a dangling key (field `d` → 9, and array 6 → 11), a logical type on a union (7) -/
@@ -179,17 +184,19 @@ example : checkForCycles gWild = .ok () := by rfl
 example : checkForCycles #[⟨.record ⟨"R", "R", none⟩ [("g", 1), ("f", 0)], none⟩, ⟨.int, none⟩] = .error .cycle := by
   rfl
 
+example : schemaFingerprint gWild (graphFuel gWild) ≠ .error .panic :=
+  C19_fingerprint_total_at_graphFuel gWild
+
 example : canonicalForm gWild (graphFuel gWild) = canonicalForm gWild (pcfBound gWild) :=
-  C19_pcf_stable gWild _ (Nat.le_trans (Nat.le_max_left _ _) (bounds_le_graphFuel gWild))
+  C19_pcf_stable_at_graphFuel gWild
 example : renderJson gWild (graphFuel gWild) = renderJson gWild (renderBound gWild) :=
-  C19_render_stable gWild _ (Nat.le_trans (Nat.le_max_right _ _) (bounds_le_graphFuel gWild))
+  C19_render_stable_at_graphFuel gWild
 
 /-- any state, even a senseless one -/
 def stJunk : PcfState := { out := "zz", written := [7, 7, 0, 99], onPath := [(1, 3), (2, 5), (50, 1)] }
 
 example : pcf gWild (graphFuel gWild) 1 stJunk ≠ .error .panic :=
-  C19_pcf_total_any_state gWild _ 1 stJunk
-    (Nat.le_trans (Nat.le_max_left _ _) (bounds_le_graphFuel gWild))
+  C19_pcf_total_any_state gWild _ 1 stJunk (pcfBound_le_graphFuel gWild)
 
 example : pcfMeasure gWild stJunk = 42 := by decide +kernel
 example : pcf gWild 400 2 stJunk ≠ .error .panic :=
@@ -273,6 +280,15 @@ theorem frozen_no_panic (S : SchemaMut) (kept : Bool) (gfuel : Nat) (F : Schema)
   ⟨(freeze_ok S kept gfuel F h).1,
    C04_no_panic_root ext cfg F (C19_frozen_usable S kept gfuel F h).1 fuel k node hk depth favor hint hf s⟩
 
+/-- the same chain entirely at the driver's fuels: `freeze` at `graphFuel`, `de` at `deFuel`
+    (`C04_no_panic_at_deFuel`, `Theorems/C04fuel.lean`) — no fuel hypothesis left -/
+theorem frozen_no_panic_at_driver_fuels (S : SchemaMut) (kept : Bool) (F : Schema)
+    (h : freeze S kept (graphFuel S) = .ok F)
+    (ext : DeExt) (cfg : DeConfig) (k : Nat) (node : Node) (hk : F[k]? = some node)
+    (depth : Nat) (favor : Bool) (hint : Hint) (s : RState) :
+    (de ext cfg F (deFuel cfg F hint depth s.rest.length) node depth favor hint s).1 ≠ .error .panic :=
+  C04_no_panic_at_deFuel ext cfg F (C19_frozen_usable S kept _ F h).1 k node hk depth favor hint _ s
+
 theorem freeze_of (S : SchemaMut) (fuel : Nat) (t : String) (j : Json) (h0 : S.size ≠ 0)
     (h1 : canonicalForm S fuel = .ok t) (h2 : renderJson S fuel = .ok j)
     (h3 : S.keysInBounds = true) (kept : Bool) : freeze S kept fuel = .ok (freezeNodes S) := by
@@ -292,6 +308,13 @@ example (ext : DeExt) (s : RState) :
         [("value", 1), ("next", 2), ("color", 3), ("more", 4), ("top", 6), ("top2", 6), ("box", 7)])
       64 false .any s).1 ≠ .error .panic :=
   (frozen_no_panic gE false (graphFuel gE) _ gE_freeze ext {} _ 0 _ (by decide +kernel) 64 false .any (Nat.le_refl _) s).2
+
+example (ext : DeExt) (s : RState) :
+    (de ext {} (freezeNodes gE) (deFuel {} (freezeNodes gE) .any 64 s.rest.length)
+      (.record ⟨"ns.Node", "Node", some "ns"⟩
+        [("value", 1), ("next", 2), ("color", 3), ("more", 4), ("top", 6), ("top2", 6), ("box", 7)])
+      64 false .any s).1 ≠ .error .panic :=
+  frozen_no_panic_at_driver_fuels gE false _ gE_freeze ext {} 0 _ (by decide +kernel) 64 false .any s
 
 /-! C10 -/
 
